@@ -4,6 +4,7 @@ import (
 	"bytes"
 	"encoding/binary"
 	"errors"
+	"flag"
 	"fmt"
 	"os"
 	"strings"
@@ -101,6 +102,11 @@ func fuzzOne(t vk.TB, family uint8, hdr []byte, payload []byte, fix uint8, cmdSe
 	} else {
 		vk.Case("fuzz/"+fam+"/invalid:"+reason, true, stream, func() any { return c })
 	}
+	if reason == "short-body" && rh.length > 8<<20 {
+		// a legitimate 8..80 MB buffer per execution in 16 parallel workers only
+		// risks the OOM killer; TestOversize covers length == MaxLength deterministically
+		return
+	}
 	r := readOne(fam, fuzzMagic, stream)
 	if r.panicked {
 		if reason != "" || framingFrame(r.frame) {
@@ -131,7 +137,9 @@ func fuzzOne(t vk.TB, family uint8, hdr []byte, payload []byte, fix uint8, cmdSe
 			vk.Report(t, "C35:read:"+fam+":magic:wrong-error", r.err.Error(), c)
 			return
 		}
-		if r.alloc > allowed {
+		// the allocation meter is process wide; inside a fuzz worker the engine's own
+		// goroutines allocate concurrently, so it is only consulted in plain test mode
+		if r.alloc > allowed && !inFuzzWorker() {
 			if a := minAlloc(fam, fuzzMagic, stream, r.alloc); a > allowed {
 				cause := reason
 				if reason == "checksum" {
@@ -152,6 +160,11 @@ func fuzzOne(t vk.TB, family uint8, hdr []byte, payload []byte, fix uint8, cmdSe
 			vk.Report(t, "C35:read:"+fam+":bytes-consumed", fmt.Sprintf("requested %d frame %d", r.requested, headerSize+int(rh.length)), c)
 		}
 	}
+}
+
+func inFuzzWorker() bool {
+	fl := flag.Lookup("test.fuzzworker")
+	return fl != nil && fl.Value.String() == "true"
 }
 
 func FuzzReadMessage(f *testing.F) {
